@@ -11,6 +11,7 @@ require (
 	github.com/x448/float16 v0.8.4 // indirect
 	golang.org/x/crypto v0.52.0 // indirect
 	golang.org/x/exp v0.0.0-20260209203927-2842357ff358 // indirect
+	golang.org/x/sync v0.20.0 // indirect
 )
 
 replace github.com/bronlabs/bron-crypto => /repo
